@@ -52,6 +52,8 @@ def run(tier, res, replay=None):
                   for x in guard.generic(rng, guard.base_single, tier)]
         items += [('core/' + x[0],) + x[1:]
                   for x in guard.generic(rng, guard.base_core, tier)]
+    # lines that run past the end of an inner ring of a 19-position core
+    items += [('core19/' + x[0],) + x[1:] for x in guard.ring_faults(rng)]
     # valid bases themselves
     for base in (guard.base_single, guard.base_rich, guard.base_core,
                  guard.base_lowfirst):
